@@ -101,3 +101,24 @@ Definition enc_res (r : res (run ev * bool)) : list Z :=
   | Ok (r', ch) => 0 :: b2z ch :: enc_run r'
   | Exn k => [exn_code k]
   end.
+
+(* ---------- C04: statuses of a given list of run ids after every operation ---------- *)
+From Bobo Require Import Model.Converge.
+Definition enc_st (s : st) : list Z :=
+  match s with Absent => [0; 0; 0] | Active i n => [1; n2z i; n2z n] | Halted => [2; 0; 0] | Completed => [3; 0; 0] end.
+
+Fixpoint run_dops_status (cfg : config ev) (ids : list Z) (s : dstate ev) (ops : list dop) : list Z :=
+  match ops with
+  | [] => []
+  | OLocal e :: rest =>
+    match local_step cfg s e with
+    | Ok (s', n) => concat (map (fun id => enc_st (status s' id)) ids) ++ run_dops_status cfg ids s' rest
+    | Exn k => [-9; exn_code k]
+    end
+  | ORemote m :: rest =>
+    let '(s', n) := remote_apply cfg s m in
+    concat (map (fun id => enc_st (status s' id) ++ enc_st (msg_status m id)) ids) ++ run_dops_status cfg ids s' rest
+  end.
+
+Definition run_decider_status (inp : cdesc * list Z * list dop) : list Z :=
+  let '(cd, ids, ops) := inp in run_dops_status (mk_cfg cd) ids d_init ops.
